@@ -315,6 +315,8 @@ def asAxisD (j : Json) (k : String) : R Axis :=
     raw tree is given, `load` applied to the RAW tree as a second model result. -/
 def handle (req : Json) : R Json := do
   let src ← asSrc (← fld req "src")
+  if (optFld req "op").isSome then
+    return Json.mkObj [("in_domain", .bool (mdDomain src.omd && mdDomain src.smd))]
   let genBy ← strF req "generated_by"
   let date ← optF asStr req "date"
   let now ← strFD req "now" ""
